@@ -163,6 +163,9 @@ pub struct RawResult {
     pub imp: Vec<String>,
     pub handler: Vec<String>,
     pub reader_mode: u8,
+    /// the node asked for thousands of CIDs (a wantlist frame larger than a yamux window): its own trace is not
+    /// replayed through the model (quadratic in size), the raw peer's view is what is checked
+    pub wide: bool,
 }
 
 pub fn run_one(seed: u64) -> RawResult {
@@ -170,7 +173,10 @@ pub fn run_one(seed: u64) -> RawResult {
     v::clock::reset();
     v::probe::enable();
     let _ = v::probe::take();
-    let tables = make_tables(2, 92);
+    // one run in six: the node asks for thousands of CIDs nobody has, so that its full wantlist is a frame larger
+    // than a yamux receive window (256 KiB) and the client half's sink is not flushed at the first poll
+    let wide: u64 = if rng.chance(1, 6) { *rng.pick(&[7000u64, 9000]) } else { 0 };
+    let tables = make_tables(2, if wide > 0 { 1000 + wide } else { 92 });
     // node 0: beetswap; node 1: raw peer
     let kp0 = keypair_of(0);
     let kp1 = keypair_of(1);
@@ -292,6 +298,9 @@ pub fn run_one(seed: u64) -> RawResult {
     }
     // the raw peer accepts inbound Bitswap streams and records the frames it receives
     let received: Arc<Mutex<Vec<Message>>> = Arc::new(Mutex::new(vec![]));
+    // streams of the node that ended (not: were dropped by the raw peer) inside a frame, with the bytes left over
+    let truncated: Arc<Mutex<Vec<usize>>> = Arc::new(Mutex::new(vec![]));
+    let trunc2 = truncated.clone();
     let mut incoming = control.accept(protocol.clone()).expect("accept");
     let recv2 = received.clone();
     let reader: BoxFut = Box::pin(async move {
@@ -308,7 +317,13 @@ pub fn run_one(seed: u64) -> RawResult {
                     break;
                 }
                 match stream.read(&mut tmp).await {
-                    Ok(0) | Err(_) => break,
+                    Ok(0) => {
+                        if !buf.is_empty() {
+                            trunc2.lock().unwrap().push(buf.len());
+                        }
+                        break;
+                    }
+                    Err(_) => break,
                     Ok(n) => {
                         total += n;
                         buf.extend_from_slice(&tmp[..n]);
@@ -338,6 +353,26 @@ pub fn run_one(seed: u64) -> RawResult {
         }
         done2.store(true, Ordering::SeqCst);
     });
+    // wide mode: the node wants thousands of CIDs before the connection exists (every local lookup misses), so that
+    // the first wantlist of the session lists them all
+    if wide > 0 {
+        for k in 1000..1000 + wide {
+            swarm0.behaviour_mut().inner.get(&cid_of_key(k));
+        }
+        let flag = Arc::new(Flag(AtomicBool::new(true)));
+        let w = Waker::from(flag.clone());
+        let mut cx = Context::from_waker(&w);
+        for _ in 0..10 {
+            while let Poll::Ready(Some(_)) = swarm0.poll_next_unpin(&mut cx) {}
+            let pend = store.pending();
+            if pend.is_empty() {
+                break;
+            }
+            for seq in pend {
+                store.complete(seq, StoreResult::Miss);
+            }
+        }
+    }
     // dial
     let opts = DialOpts::peer_id(peer0).addresses(vec![addr0]).condition(PeerCondition::Always).build();
     let _ = swarm1.dial(opts);
@@ -534,7 +569,28 @@ pub fn run_one(seed: u64) -> RawResult {
         }
     }
     trace.push(format!("blocks received by the raw peer: {blocks:?}"));
-    RawResult { violations, trace, ops: r.ops.clone(), imp: r.imp.clone(), handler: r.handler.clone(), reader_mode }
+    // C14: every wantlist the node sends arrives as whole frames; a stream of the node never ends inside a frame
+    for n in truncated.lock().unwrap().iter() {
+        violations.push(("C14".into(), format!("a stream the node opened towards the raw peer ended inside a frame ({n} bytes of an incomplete frame were received): a truncated message, reported as sent")));
+    }
+    if wide > 0 && reader_mode != 2 {
+        let mut wanted: std::collections::BTreeSet<Vec<u8>> = Default::default();
+        for m in recv.iter() {
+            if let Some(w) = &m.wantlist {
+                for e in &w.entries {
+                    if !e.cancel {
+                        wanted.insert(e.block.clone());
+                    }
+                }
+            }
+        }
+        let missing = (1000..1000 + wide).filter(|k| !wanted.contains(&cid_of_key(*k).to_bytes())).count();
+        trace.push(format!("wide wantlist: {wide} CIDs wanted by the node, {} distinct CIDs in the wantlists the raw peer received", wanted.len()));
+        if missing > 0 {
+            violations.push(("C14".into(), format!("the node wants {wide} CIDs and is idle, but {missing} of them never reached the raw peer in a complete wantlist frame")));
+        }
+    }
+    RawResult { violations, trace, ops: if wide > 0 { vec![] } else { r.ops.clone() }, imp: if wide > 0 { vec![] } else { r.imp.clone() }, handler: r.handler.clone(), reader_mode, wide: wide > 0 }
 }
 
 pub fn raw_stream(seed: u64, runs: usize, out: &str, name: &str) -> Sink {
@@ -545,10 +601,13 @@ pub fn raw_stream(seed: u64, runs: usize, out: &str, name: &str) -> Sink {
         let run_seed = seed.wrapping_mul(7_000_003).wrapping_add(r as u64);
         let res = match std::panic::catch_unwind(|| run_one(run_seed)) {
             Ok(res) => res,
-            Err(e) => RawResult { violations: vec![("C08".into(), format!("panic with a raw peer: {}", crate::exec::panic_msg(e)))], trace: vec![format!("seed={run_seed}")], ops: vec![], imp: vec![], handler: vec![], reader_mode: 9 },
+            Err(e) => RawResult { violations: vec![("C08".into(), format!("panic with a raw peer: {}", crate::exec::panic_msg(e)))], trace: vec![format!("seed={run_seed}")], ops: vec![], imp: vec![], handler: vec![], reader_mode: 9, wide: false },
         };
         sink.count("simraw.runs");
         sink.count(&format!("simraw.reader-mode-{}", res.reader_mode));
+        if res.wide {
+            sink.count("simraw.wide-wantlist");
+        }
         for h in &res.handler {
             hlog.push(format!("r={r} n=0 {h}"));
         }
